@@ -444,6 +444,69 @@ fn run(ctx: &mut Ctx) {
             }
         }
     }
+    // long chains: n operands joined by one operator (left associative), n around every power of ten and around the
+    // length at which okane starts to refuse an expression; a refusal is an implementation limit (DON'T-CARE beyond 100
+    // operands, C06 demands that it is a diagnostic), but an ACCEPTED chain must have exactly the value of the whole chain
+    {
+        let mut ns: Vec<usize> = (2..=12).collect();
+        for base in [100usize, 256, 500, 1000, 1024, 2000] {
+            for d in [-2i64, -1, 0, 1, 2] {
+                ns.push((base as i64 + d) as usize);
+            }
+        }
+        for n in ns {
+            for (opname, op, first, rest) in [("sum", '+', "1 X", "1 X"), ("difference", '-', "5000 X", "1 X"), ("product", '*', "1 X", "2"), ("mixed", '+', "1 X", "2 * 3 X")] {
+                if opname == "product" && n > 90 {
+                    // 2^90 and beyond leaves the representable decimal range: outside the property
+                    continue;
+                }
+                for cx in [Cx::Eval, Cx::Posting] {
+                    if !ctx.next_is_mine() {
+                        ctx.skip_cases(1);
+                        continue;
+                    }
+                    let mut e = String::from(first);
+                    for _ in 1..n {
+                        e.push_str(&format!(" {} {}", op, rest));
+                    }
+                    let text = format!("({})", e);
+                    // expected value in X
+                    let k = (n - 1) as i128;
+                    let want: Option<Q> = match opname {
+                        "sum" => Some(Q::int(1 + k)),
+                        "difference" => Some(Q::int(5000 - k)),
+                        "product" => if k <= 90 { Some(Q::int(1i128 << k)) } else { None },
+                        _ => Some(Q::int(1 + 6 * k)),
+                    };
+                    ctx.case(
+                        || format!("[{:?}] chain of {} operands: ({} {} {} {} ...)", cx, n, first, op, rest, op),
+                        || {
+                            let got: Result<QMap, String> = match cx {
+                                Cx::Eval => oka::with_ledger(&[(oka::ROOT, PRELUDE)], oka::ROOT, None, |r| {
+                                    let (l, c) = r.expect("prelude must load");
+                                    l.eval(c, &text, &EvalContext { date: oka::date(2024, 1, 1), exchange: None }).map(|a| oka::amount_to_qmap(&a)).map_err(|e| format!("{:?}", e))
+                                }),
+                                _ => oka::process_text(&format!("{}2024/01/01 t\n  A  {}\n  B\n", PRELUDE, text)).map(|(_, txns)| txns.last().unwrap().postings[0].amount.clone()).map_err(|e| e.variant),
+                            };
+                            match (&want, &got) {
+                                (None, _) => Outcome::dont_care("chain/value-out-of-range"),
+                                (Some(_), Err(_)) if n > 100 => Outcome::dont_care("chain/refused-as-too-long"),
+                                (Some(w), Err(e)) => Outcome::violation("chain/well-typed-rejected", format!("chain of {} operands should be {} X but was rejected: {}", n, w, e)),
+                                (Some(w), Ok(m)) => {
+                                    let g = m.get("X").copied().unwrap_or(Q::ZERO);
+                                    if g == *w && m.iter().all(|(c, v)| c == "X" || v.is_zero()) {
+                                        Outcome::pass(format!("chain/{}/value-ok", opname))
+                                    } else {
+                                        Outcome::violation(format!("chain/{}/value-differs", opname), format!("chain of {} operands should be {} X but evaluated to {}", n, w, qmap_show(m)))
+                                    }
+                                }
+                            }
+                        },
+                    );
+                }
+            }
+        }
+    }
     if ctx.tier == Tier::Thorough {
         // exactly 3 operators: 5 tree shapes over 6 leaves, at most one unary minus (on any of the 7 nodes)
         let six: Vec<Rc<T>> = [T::Leaf("1", ""), T::Leaf("2", ""), T::Leaf("3", "X"), T::Leaf("0", "X"), T::Leaf("6", "X"), T::Leaf("2", "Y")].into_iter().map(Rc::new).collect();
